@@ -529,7 +529,7 @@ func c18Requests(thorough bool) map[string][]rreq {
 	for _, a := range []string{"", "algorithm=SHA1", "algorithm=SHA256", "algorithm=SHA512", "algorithm=sha256", "algorithm=MD5", "x=y"} {
 		out["/otp/secret"] = append(out["/otp/secret"], rreq{Method: "GET", Path: "/otp/secret", Query: a})
 	}
-	out["/otp/url"] = product("/otp/url", []fieldAlpha{{"type", []any{"totp", "hotp", "TOTP", "", nil}}, {"secret", []any{"JBSWY3DPEHPK3PXP", " ", nil}}, {"issuer", []any{"Example", "My Company", "a/b?c#d", "100%", nil}}, {"account_name", []any{"alice@example.com", "bob smith", "x:y", nil}}, {"period", periodVals}, {"digits", digitsVals}, {"algorithm", algoVals}}, every(7))
+	out["/otp/url"] = product("/otp/url", []fieldAlpha{{"type", []any{"totp", "hotp", "TOTP", "", nil}}, {"secret", []any{"JBSWY3DPEHPK3PXP", " ", nil, " JBSWY3DPEHPK3PXP", "JBSWY3DPEHPK3PXP\n", "\tjbswy3dpehpk3pxp \n", "MZXW6YQ= "}}, {"issuer", []any{"Example", "My Company", "a/b?c#d", "100%", nil}}, {"account_name", []any{"alice@example.com", "bob smith", "x:y", nil}}, {"period", periodVals}, {"digits", digitsVals}, {"algorithm", algoVals}}, every(7))
 	return out
 }
 
